@@ -29,10 +29,13 @@ var versions = []string{"16.20", "20.14", "20.27", "20.43", "21.40"}
 
 // selCase is one product-profile selection.
 type selCase struct {
-	Version   string `json:"sdk_version"`
-	Disabled  []int  `json:"disabled_rows"` // Messages-sheet row numbers whose EXAMPLE cell is removed (after closure)
-	ViaZip    bool   `json:"via_sdk_zip"`
-	Reenabled int    `json:"reenabled_by_closure"`
+	Version  string `json:"sdk_version"`
+	Disabled []int  `json:"disabled_rows"` // Messages-sheet row numbers whose EXAMPLE cell is removed (after closure)
+	ViaZip   bool   `json:"via_sdk_zip"`
+	// ZipOverride: the zip is named for another release (FitSDKRelease_1.0.zip)
+	// and the version is requested with -sdk, which overrides the name
+	ZipOverride bool `json:"zip_named_otherwise_with_sdk_flag,omitempty"`
+	Reenabled   int  `json:"reenabled_by_closure"`
 }
 
 type book struct {
@@ -310,9 +313,9 @@ func buildFitgen() (string, error) {
 	return fitgenBin, fitgenErr
 }
 
-func runFitgen(bin, input, ver, out string, viaZip bool) (string, error) {
+func runFitgen(bin, input, ver, out string, viaZip, override bool) (string, error) {
 	args := []string{}
-	if !viaZip {
+	if !viaZip || override {
 		args = append(args, "-sdk", ver)
 	}
 	args = append(args, input, out)
@@ -355,6 +358,9 @@ func checkSelection(c selCase, labels map[string]int) (string, bool) {
 	input := xlsx
 	if c.ViaZip {
 		input = filepath.Join(tmp, "FitSDKRelease_"+c.Version+".00.zip")
+		if c.ZipOverride {
+			input = filepath.Join(tmp, "FitSDKRelease_1.0.zip")
+		}
 		if err := wb.WriteSDKZip(input, xlsx); err != nil {
 			return "HARNESS: " + err.Error(), false
 		}
@@ -362,7 +368,7 @@ func checkSelection(c selCase, labels map[string]int) (string, bool) {
 	outs := []string{filepath.Join(tmp, "out1"), filepath.Join(tmp, "out2")}
 	for _, o := range outs {
 		os.MkdirAll(o, 0o755)
-		log, err := runFitgen(bin, input, c.Version, o, c.ViaZip)
+		log, err := runFitgen(bin, input, c.Version, o, c.ViaZip, c.ZipOverride)
 		if err != nil {
 			tail := log
 			if len(tail) > 1500 {
@@ -482,6 +488,9 @@ func firstDiff(a, b []byte) int {
 
 func drawSelection(d gen.D, b *book) selCase {
 	c := selCase{Version: b.ver, ViaZip: d.Bool("zip")}
+	if c.ViaZip && d.Int(0, 2, "zipover") == 0 {
+		c.ZipOverride = true
+	}
 	disabled := map[int]bool{}
 	mode := d.Int(0, 3, "mode")
 	var enabledRows []*wb.Row
@@ -553,18 +562,19 @@ func TestC19(t *testing.T) {
 		// stock workbooks, both input forms, in parallel
 		var wg sync.WaitGroup
 		for _, v := range versions {
-			for _, zip := range []bool{false, true} {
+			for form := 0; form < 3; form++ {
 				wg.Add(1)
-				go func(v string, zip bool) {
+				go func(v string, form int) {
 					defer wg.Done()
-					c := selCase{Version: v, ViaZip: zip}
+					zip := form > 0
+					c := selCase{Version: v, ViaZip: zip, ZipOverride: form == 2}
 					labels := map[string]int{}
 					if msg, ok := checkSelection(c, labels); !ok {
 						rec.Fail("stock", "", fmt.Sprintf("SDK %s (zip=%v): %s", v, zip, msg), c)
 					}
 					rec.Eval("stock", 1)
 					rec.Class("table-entries-checked", int64(labels["table-entries-checked"]))
-				}(v, zip)
+				}(v, form)
 			}
 		}
 		wg.Wait()
@@ -583,7 +593,7 @@ func TestC19(t *testing.T) {
 					}
 				}
 				b.closeDown(disabled)
-				c := selCase{Version: v, ViaZip: i == 1}
+				c := selCase{Version: v, ViaZip: i >= 1, ZipOverride: i == 2}
 				for l := range disabled {
 					c.Disabled = append(c.Disabled, l)
 				}
